@@ -311,6 +311,50 @@ func runC10(c *Ctx) {
 			c.Cmp("C10-merge", h2, fmt.Sprintf("ok %d %d", len(got.a), fnvLabels(got.a)), c.Model.Ask("blk.hash"))
 			c.Eval("directed replace-then-merge "+h2, true)
 		}
+		// the same aliased table under a split: sizes and content for the doubled label and for its neighbours
+		for _, target := range []uint64{to, 1, uint64(nl)} {
+			rs := genRunsIn(r, dv, target)
+			newLabel := uint64(1<<42) + uint64(r.Intn(1000))
+			h2 := hist + fmt.Sprintf("Split target %d new %d runs(local) %s\n", target, newLabel, runsStr(rs))
+			pb := labels.PositionedBlock{Block: *rb, BCoord: dvid.ChunkPoint3d{0, 0, 0}.ToIZYXString()}
+			var sb *labels.Block
+			var kept, split uint64
+			var serr error
+			if p := safely(func() { sb, kept, split, serr = pb.Split(labels.SplitOp{Target: target, NewLabel: newLabel, RLEs: offsetRuns(rs, dvid.Point3d{0, 0, 0})}) }); p != "" || serr != nil {
+				c.Report("O", "C10 split-fails", "Split fails or panics", blockReplay(dv, h2+p+fmt.Sprint(serr)+"\n"))
+				continue
+			}
+			mask := inRuns(dv, rs)
+			want := copyVol(dv)
+			var wk, ws uint64
+			for i, l := range dv.a {
+				if l == target {
+					if mask[i] {
+						want.a[i] = newLabel
+						ws++
+					} else {
+						wk++
+					}
+				}
+			}
+			c.Eval("directed replace-then-split "+h2, true)
+			c.Count("op-split after aliasing replace")
+			if wk+ws == 0 {
+				continue
+			}
+			if sb == nil {
+				c.Report("O", "C10 split-absent-target", "Split returns no block although the target label is in the block", blockReplay(dv, h2+"(array shown after the replace)\n"))
+				continue
+			}
+			if kept != wk || split != ws {
+				c.Report("O", "C10 split-sizes-differ", "Split reports kept/split sizes that are not the true counts", blockReplay(dv, h2+fmt.Sprintf("(array shown after the replace) reported kept %d split %d, true kept %d split %d\n", kept, split, wk, ws)))
+			}
+			if got := decodeOf(sb); firstDiff(got.a, want.a) != -1 {
+				i := firstDiff(got.a, want.a)
+				c.Report("O", "C10 split-differs", "the operation on the compressed block differs from the operation on the array",
+					blockReplay(dv, h2+fmt.Sprintf("(array shown after the replace) first differing voxel %d got %d want %d\n", i, at(got.a, i), at(want.a, i))))
+			}
+		}
 	}
 	iters := 30
 	if c.Thorough {
